@@ -13,7 +13,7 @@
   hypotheses on the input, assembled from per-pass lemmas `post_P` / `keeps_P` (lean/Cog/NF/*.lean).
 -/
 import Cog.NF.EnumNames
-import Cog.NF.GoEnumNames
+import Cog.NF.SanitizePost
 import Cog.NF.Witness
 import Cog.Gen.Chains
 namespace Cog.C06
@@ -109,6 +109,38 @@ example : let S := Witness.schemas [Witness.obj "E" (.enum [{ name := "1", value
     EnumsNamed S = true ∧ NumericNamesInRange S = true ∧ (∃ S', chain typescriptChain S = .ok S') := by
   refine ⟨by decide, by decide, ?_⟩
   exact ⟨_, rfl⟩
+
+/-! ## what single passes establish (pass-level post-conditions)
+
+`FlatUnions S` (decidable): no union occurs below a branch of a union, nor in a map index type —
+i.e. every union of `S` sits at a position the `OnDisjunction` hooks reach and has union-free branches.
+This is the hypothesis that excludes the refuting witnesses above. -/
+
+/-- DisjunctionToType turns EVERY union into a named struct (or a scalar) when the unions of its
+    input are flat: none is left in the visited objects nor in the objects the pass registers. -/
+theorem C06_post_DisjunctionToType (S S' : Schemas) (hf : FlatUnions S = true)
+    (h : DisjunctionToType.run S = .ok S') : NoUnion S' = true :=
+  post_DisjunctionToType S S' hf h
+
+/-- DisjunctionWithNullToOptional removes every two-branch `T | null` union of a flat input. -/
+theorem C06_post_DisjunctionWithNullToOptional (S S' : Schemas) (hf : FlatUnions S = true)
+    (h : DisjunctionWithNullToOptional.run S = .ok S') : NoNullPairUnion S' = true :=
+  post_DisjunctionWithNullToOptional S S' hf h
+
+/-- SanitizeEnumMemberNames: when every enum is a named object (what AnonymousEnumToExplicitType,
+    which precedes it in the PHP chain, establishes), every member name is non-empty and does not
+    start with a sign afterwards. -/
+theorem C06_post_SanitizeEnumMemberNames (S S' : Schemas) (hn : EnumsNamed S = true)
+    (h : SanitizeEnumMemberNames.run S = .ok S') : EnumNames_php S' = true :=
+  post_SanitizeEnumMemberNames S S' hn h
+
+/-- non-vacuity of `FlatUnions`: a schema with unions at a field, in an array and in a map value -/
+example : let S := Witness.schemas [Witness.obj "A" (.struct [Witness.fld "f" (Witness.union [Witness.str, Witness.null]) false,
+      Witness.fld "g" (.array (Witness.union [Witness.i64, Witness.bool]) {}) true,
+      Witness.fld "h" (.map Witness.str (Witness.union [Witness.str, .ref "p" "A" {}]) {}) true] [] none {})]
+    FlatUnions S = true ∧ NoUnion S = false ∧ (∃ S', DisjunctionToType.run S = .ok S') ∧
+    (∃ S', DisjunctionWithNullToOptional.run S = .ok S') := by
+  refine ⟨by decide, by decide, ⟨_, rfl⟩, ⟨_, rfl⟩⟩
 
 /-! ## Go -/
 
